@@ -129,7 +129,9 @@ class Sim:
         cfg = SUBSCRIBERS[name]
         actions = self.p.mdib.sdc_definitions.Actions
         ft = eventing_types.FilterType()
-        ft.text = ' '.join(getattr(actions, a).value for a in cfg['filter'])
+        # subscriber A writes its filter pretty-printed: one action per line, indented (legal: white space separated list)
+        sep = '\n        ' if name == 'A' else ' '
+        ft.text = sep.join(getattr(actions, a).value for a in cfg['filter']) + ('\n    ' if name == 'A' else '')
         ft.Dialect = DeviceEventingFilterDialectURI.ACTION
         hosted = types.SimpleNamespace(EndpointReference=[types.SimpleNamespace(Address=self.hosted_address)])
         base = f'http://{cfg["ip"]}:{cfg["port"]}'
@@ -519,6 +521,64 @@ def _bfs(ctx, mgr_name, evs, depth, tag):
     return len(seen)
 
 
+def _transport_status(ctx):
+    """The delivery-failure counting rests on the notification client reporting every HTTP error answer of the subscriber,
+    whatever its body looks like: the real SoapClient gets every status x body shape from a scripted connection."""
+    import http.client
+    import io
+    from sdc11073 import loghelper
+    from sdc11073.pysoap.soapclient import HTTPReturnCodeError, SoapClient
+
+    def resp(raw):
+        class S:
+            def makefile(self, *a, **k):  # noqa: ARG002
+                return io.BytesIO(raw)
+        r = http.client.HTTPResponse(S())
+        r.begin()
+        return r
+    fault = (b'<s12:Envelope xmlns:s12="http://www.w3.org/2003/05/soap-envelope"><s12:Body><s12:Fault><s12:Code><s12:Value>s12:Receiver'
+             b'</s12:Value></s12:Code><s12:Reason><s12:Text xml:lang="en">no</s12:Text></s12:Reason></s12:Fault></s12:Body></s12:Envelope>')
+    bodies = {'empty': b'', 'fault': fault, 'text': b'Service Unavailable', 'blank': b' '}
+    for status in (200, 202, 204, 301, 400, 401, 404, 500, 503):
+        for bname, body in bodies.items():
+            if status == 204 and body:
+                continue
+            ctx.transition()
+            ctx.evals()
+            ctx.trace()
+            raw = (f'HTTP/1.1 {status} X\r\nContent-Length: {len(body)}\r\nContent-Type: application/soap+xml\r\n\r\n').encode() + body
+            client = SoapClient('10.0.1.1:7001', 1, loghelper.get_logger_adapter('verif.c08'), None, None, None,
+                                supported_encodings=[], request_encodings=[])
+
+            class Conn:
+                sock = object()
+
+                def request(self, *a, **k):
+                    pass
+
+                def getresponse(self, raw=raw):
+                    return resp(raw)
+
+                def close(self):
+                    pass
+            client._http_connection = Conn()
+            outcome = 'returned'
+            try:
+                client._send_soap_request('/notify/A', b'<n/>', 'verif')
+            except HTTPReturnCodeError:
+                outcome = 'http-error-reported'
+            except Exception as ex:  # noqa: BLE001
+                outcome = f'raised-{type(ex).__name__}'
+            ctx.outcome(f'transport-status:{status // 100}xx:{outcome}')
+            ctx.state(h64(('c08-status', status, bname)))
+            if status >= 300 and outcome == 'returned':
+                ctx.violation(f'transport/http-error-answer-taken-as-delivered/{status}/{bname}-body',
+                              {'status': status, 'body': bname, 'outcome': outcome}, case={'kind': 'transport-status'})
+            if status < 300 and outcome != 'returned':
+                ctx.violation(f'transport/success-answer-reported-as-failure/{status}/{bname}-body',
+                              {'status': status, 'body': bname, 'outcome': outcome}, case={'kind': 'transport-status'})
+
+
 def run(ctx):
     evs = events(ctx.quick)
     depth = 4 if ctx.quick else 6
@@ -536,6 +596,7 @@ def run(ctx):
     for mgr_name in (('path-sync', 'path-async') if ctx.quick else managers):
         _bfs(ctx, mgr_name, deep, 8 if ctx.quick else 10, 'deep')
     del ctx.emitted[:]
+    _transport_status(ctx)
     from mcx.checks import c08_sched
     for sim in _SIMS.values():
         sim.w.close()
@@ -550,6 +611,9 @@ def run(ctx):
 
 
 def replay(ctx, case):
+    if case.get('kind') == 'transport-status':
+        _transport_status(ctx)
+        return {'violations': sorted(ctx.violations)[:10]}
     if case.get('kind') == 'race':
         from mcx.checks import c08_sched
         return c08_sched.replay(ctx, case)
